@@ -17,6 +17,7 @@ RULE = ("U3 plain / 1 control / 2 controls on the certificate grid of angle trip
         "non-trivial = circuit contains a rule-matched operation and a second operation or a non-trivial placement")
 RULE += ' Also: rule lists over 6 rules incl. one whose output re-matches itself, circuits with same-wrapper gates of equal parameters, predicate/production called in other orders than decompose_operations does.'
 RULE += ' Round 5: a rule with an empty production; one circuit object and one rule-list object mutated in place between decompositions (every history of 2-3 mutations).'
+RULE += ' Round 7: operations that are not gates (MultiPhaseOperation) before / after / between matched operations (D34); a rule that hands out ONE list object for all its productions.'
 RULE += ' Round 6: symbolic angle expressions over 7 symbol-name families in every slot order, decomposed symbolically and bound afterwards.'
 ASSUMPTIONS = ["to_unitary is the ordered product (C01) and gate matrices are as C02 decided", "cut-off: W entries are trigonometric polynomials of the certified degree in the half angles"]
 BOUNDS = {"quick": {"grid": "full certificate grid for each U3 kind on one placement", "placements": "all, 3 angle triples", "length": 2},
@@ -45,8 +46,25 @@ def padU(U, n):
     return np.kron(U, np.eye(2 ** (n - k))) if k < n else U
 
 
+def op_by_op_unitary(c, n):
+    """a circuit holding operations that are not gates has no to_unitary(): ordered product of the gates' own embedded matrices and the diagonal phases of a MultiPhaseOperation"""
+    U = np.eye(2 ** n, dtype=complex)
+    for o in c.operations:
+        M = L.embed(num(o.gate.matrix), tuple(o.qubit_indices), n) if hasattr(o, "gate") else np.diag(np.exp(1j * np.array([float(x) for x in o.params])))
+        U = M @ U
+    return U
+
+
 def judge(case_ops, n, circ, dec):
     """returns None if dec acts like circ up to one global phase; else (msg, sig, expected, observed)"""
+    if any(not hasattr(o, "gate") for o in list(circ.operations) + list(dec.operations)):
+        if dec.n_qubits != circ.n_qubits:
+            return ("decomposed circuit acts on a register of another width than the original", "width", circ.n_qubits, dec.n_qubits)
+        Wm_ = op_by_op_unitary(circ, n) @ op_by_op_unitary(dec, n).conj().T
+        if L.is_global_phase_of_identity(Wm_, 1e-8) or (any("gate" in od and od["gate"].get("w") == "controlled" for od in case_ops)):
+            # (circuits with a controlled U3 carry finding D16; what is judged for them here is only that the non-gate operations are kept in place - done by the caller)
+            return None
+        return ("decomposed circuit with non-gate operations does not act like the original", "action", "W = phase * I", "W diagonal %s" % np.round(np.diag(Wm_), 4).tolist()[:8])
     U = padU(num(circ.to_unitary()), n)
     if dec.n_qubits != circ.n_qubits:
         return ("decomposed circuit acts on a register of another width than the original (idle qubits are part of the circuit)", "width", circ.n_qubits, dec.n_qubits)
@@ -58,7 +76,7 @@ def judge(case_ops, n, circ, dec):
     pred = np.eye(2 ** n, dtype=complex)
     has_cu3 = False
     for od in case_ops:
-        g = od["gate"]
+        g = od.get("gate", {})
         if g.get("w") == "controlled" and g["of"].get("g") == "U3":
             has_cu3 = True
             th, ph, la = g["of"]["p"]
@@ -80,17 +98,17 @@ def circuit_case(case):
     n = case["n"]
     circ = mk_circuit(case)
     dec = decompose(circ)
-    matched = [i for i, od in enumerate(case["ops"]) if od["gate"].get("g") == "U3" or (od["gate"].get("w") == "controlled" and od["gate"]["of"].get("g") == "U3")]
+    matched = [i for i, od in enumerate(case["ops"]) if "gate" in od and (od["gate"].get("g") == "U3" or (od["gate"].get("w") == "controlled" and od["gate"]["of"].get("g") == "U3"))]
     # unmatched operations: same objects, same relative order
     un_orig = [o for i, o in enumerate(circ.operations) if i not in matched]
     un_dec = [o for o in dec.operations if any(o is x for x in un_orig)]
     if len(un_dec) != len(un_orig) or any(a is not b for a, b in zip(un_dec, un_orig)):
         return {"ok": False, "msg": "operations no rule applies to are not kept unchanged and in order", "expected": str([str(o) for o in un_orig]), "observed": str([str(o) for o in dec.operations]),
                 "sig": "unmatched"}
-    if any(o.gate.name == "U3" or (hasattr(o.gate, "wrapped_gate") and getattr(o.gate.wrapped_gate, "name", "") == "U3" and type(o.gate).__name__ == "ControlledGate") for o in dec.operations):
+    if any(hasattr(o, "gate") and (o.gate.name == "U3" or (hasattr(o.gate, "wrapped_gate") and getattr(o.gate.wrapped_gate, "name", "") == "U3" and type(o.gate).__name__ == "ControlledGate")) for o in dec.operations):
         return {"ok": False, "msg": "a U3 (plain or controlled) survived decomposition", "observed": str([str(o) for o in dec.operations]), "sig": "not-decomposed"}
     bad = judge(case["ops"], n, circ, dec)
-    r = {"ok": bad is None, "nt": bool(matched) and (len(case["ops"]) >= 2 or case["ops"][0]["q"] != list(range(len(case["ops"][0]["q"])))), "ops": 2,
+    r = {"ok": bad is None, "nt": bool(matched) and (len(case["ops"]) >= 2 or case["ops"][0].get("q") != list(range(len(case["ops"][0].get("q", []))))), "ops": 2,
          "out": "matched%d" % len(matched)}
     if bad:
         r.update(msg=bad[0], sig=bad[1], expected=str(bad[2]), observed=str(bad[3]))
@@ -428,6 +446,12 @@ def run(run):
     cc.append({"ops": [{"gate": u3_gate(1, tri[0]), "q": [0, 1]}, {"gate": u3_gate(1, tri[1]), "q": [1, 0]}], "n": 2})
     cc += [{"ops": [p, q], "n": 3} for p in partner_ops(3)[:4] for q in partner_ops(3)[4:8]]
     cc.append({"ops": [{"gate": W("dagger", G("U3", 0.3, 0.4, 0.5)), "q": [0]}, {"gate": W("power", G("U3", 0.3, 0.4, 0.5), e=2), "q": [1]}], "n": 2})
+    # operations that are not gates (a MultiPhaseOperation) before / after / between rule-matched operations: no rule applies to them, they are kept, in place
+    for kind in (0, 1):
+        u = {"gate": u3_gate(kind, tri[0]), "q": list(range(kind + 1))[::-1]}
+        mp2 = {"mp": [0.1, 0.5, -0.3, 0.9]}
+        t_ = {"gate": G("T"), "q": [0]}
+        cc += [{"ops": ops_, "n": 2} for ops_ in ([u, mp2], [mp2, u], [u, mp2, u], [t_, mp2, u, t_], [mp2], [u, mp2, t_, mp2])]
     secs.append(Section("circuits", cc, circuit_case, horizon=900, desc="every placement x angle triples; length-2 circuits with unmatched partner operations in both orders"))
     secs.append(Section("rules", [{"kind": k} for k in ("empty", "AB", "BA", "U3U3", "A,U3,B", "ops")], rules_case, desc="empty rule list, rule order, idempotence"))
     names = ["A", "B", "H", "Z", "U3", "S", "D"]
